@@ -1252,6 +1252,15 @@ func (f *Frame) nextOp(x *ssa.Next, st *State) Value {
 		vt2 := u.freshDef("mval", v.T)
 		u.assume(mkAnd(st.reach, ok), u.wf(vt2, mt.Elem(), st.wm))
 		vv = Value{T: vt2, Ty: mt.Elem()}
+		// `for k := range m { delete(m, k) }`: when the iteration ends, every entry was produced
+		// and deleted (entries removed before being reached are not produced): the map is empty
+		if isClearIdiom(x, rng) {
+			dom, _ := u.mapRegions(mt)
+			ks := u.te.sortOf(mt.Key())
+			row := mk(arraySort(ks, SBool), "select", u.heapGet(st.heap, dom), m)
+			empty := Term{fmt.Sprintf("((as const %s) false)", arraySort(ks, SBool)), arraySort(ks, SBool)}
+			u.assume(mkAnd(st.reach, mkNot(ok)), mkEq(row, empty))
+		}
 	} else {
 		kv = Value{T: u.sc.fresh("k", u.te.sortOf(kt)), Ty: kt}
 		vv = Value{T: u.sc.fresh("v", u.te.sortOf(vt)), Ty: vt}
@@ -1791,3 +1800,60 @@ func (f *Frame) runningDeferred() bool {
 
 // contractOfNameLess is a placeholder hook (always false): unknown callees have no contract.
 func (e *Engine) contractOfNameLess(name string) bool { return false }
+
+// isClearIdiom recognises a map range loop whose body does nothing but delete the produced key
+// from the ranged map.
+func isClearIdiom(next *ssa.Next, rng *ssa.Range) bool {
+	if rng == nil || next.Block() == nil {
+		return false
+	}
+	head := next.Block()
+	var body *ssa.BasicBlock
+	if iff, ok := head.Instrs[len(head.Instrs)-1].(*ssa.If); ok && len(head.Succs) == 2 {
+		_ = iff
+		body = head.Succs[0]
+	}
+	if body == nil || len(body.Succs) != 1 || body.Succs[0] != head {
+		return false
+	}
+	deletes := 0
+	for _, ins := range body.Instrs {
+		switch x := ins.(type) {
+		case *ssa.Extract:
+			if x.Tuple != next {
+				return false
+			}
+		case *ssa.DebugRef, *ssa.Jump:
+		case *ssa.UnOp:
+			// re-load of the ranged package-level map variable
+			if !sameMapVar(x, rng.X) {
+				return false
+			}
+		case *ssa.Call:
+			b, ok := x.Call.Value.(*ssa.Builtin)
+			if !ok || b.Name() != "delete" || len(x.Call.Args) != 2 || !(x.Call.Args[0] == rng.X || sameMapVar(x.Call.Args[0], rng.X)) {
+				return false
+			}
+			ex, ok := x.Call.Args[1].(*ssa.Extract)
+			if !ok || ex.Tuple != next || ex.Index != 1 {
+				return false
+			}
+			deletes++
+		default:
+			return false
+		}
+	}
+	return deletes == 1
+}
+
+// sameMapVar: both values are loads of the same package-level variable.
+func sameMapVar(a, b ssa.Value) bool {
+	la, ok1 := a.(*ssa.UnOp)
+	lb, ok2 := b.(*ssa.UnOp)
+	if !ok1 || !ok2 {
+		return false
+	}
+	ga, ok1 := la.X.(*ssa.Global)
+	gb, ok2 := lb.X.(*ssa.Global)
+	return ok1 && ok2 && ga == gb
+}
